@@ -36,6 +36,10 @@ type ctrlEv struct {
 	ModeOk  bool   `json:"mode_ok,omitempty"`
 	Mode    *int   `json:"mode,omitempty"`
 	Pwm     *int   `json:"pwm,omitempty"`
+	// ext only, generation time: choose the externally written PWM from the controller's state when the event
+	// is reached ("req" = the last request itself, "key" = the supported input nearest to it, "near" = expected
+	// output +-1); the concrete value is stored in Pwm and the field cleared, so the recorded input is plain.
+	Adaptive string `json:"adaptive,omitempty"`
 }
 
 type ctrlIn struct {
@@ -271,8 +275,27 @@ func runCtrl(ctx *Ctx, in ctrlIn) ([]ctrlObs, string) {
 		o.Avg = jF(fan.GetRpmAvg())
 		return o
 	}
-	for _, ev := range in.Hist {
+	for evIdx := range in.Hist {
+		ev := in.Hist[evIdx]
 		writes = nil
+		if ev.T == "ext" && ev.Adaptive != "" {
+			if l, ok := c.VerifLastSetPwm(); ok && len(c.VerifDistinct()) > 0 {
+				key := util.FindClosest(l, c.VerifDistinct())
+				v := l
+				switch ev.Adaptive {
+				case "key":
+					v = key
+				case "near":
+					v = pm[key] + 1
+				}
+				if v < 0 {
+					v = 0
+				}
+				ev.Pwm = &v
+			}
+			ev.Adaptive = ""
+			in.Hist[evIdx] = ev
+		}
 		switch ev.T {
 		case "poll":
 			rpmFail = ev.Rpm == nil
@@ -576,6 +599,9 @@ func genCtrlCase(rng *Rng, mode string, cmdOK bool) (ctrlIn, []string) {
 			e := ctrlEv{T: "ext"}
 			if rng.Chance(2, 3) {
 				e.Pwm = ctrlPtr(rng.Range(0, 255))
+			}
+			if rng.Chance(1, 3) {
+				e.Adaptive = []string{"req", "key", "near"}[rng.Intn(3)]
 			}
 			if rng.Chance(1, 2) {
 				e.Mode = ctrlPtr([]int{0, 2, 3}[rng.Intn(3)])
